@@ -23,6 +23,7 @@ type bkind struct {
 	kind   colgen.Kind
 	target func() proto.Column // special (inferable) targets; nil = kind.New()
 	wire   string              // type name written into the block (default kind.Name())
+	tt     *tast               // type of the target when it differs from the type of the block column (inferring targets)
 }
 
 func bindKinds() []bkind {
@@ -43,12 +44,19 @@ func bindKinds() []bkind {
 		{name: "tU8Str", t: te("Tuple", t0("UInt8"), t0("String")), kind: colgen.Tuple(b.U8, b.Str)},
 		{name: "tU8", t: te("Tuple", t0("UInt8")), kind: colgen.Tuple(b.U8)},
 		// server-side enum: raw Int8 data under an Enum8 type name; the caller's target is the inferable ColEnum
-		{name: "enumA", t: tp("Enum8", "'a' = 1", "'b' = 2"), kind: b.E8, target: enumT, wire: "Enum8('a' = 1, 'b' = 2)"},
-		{name: "enumB", t: tp("Enum8", "'x' = 1", "'y' = 2", "'z' = 3"), kind: b.E8, target: enumT, wire: "Enum8('x' = 1, 'y' = 2, 'z' = 3)"},
+		// (proto.ColEnum adopts whatever enum the server names, of either width: the specification calls that target "Enum")
+		{name: "enumA", t: tp("Enum8", "'a' = 1", "'b' = 2"), kind: b.E8, target: enumT, wire: "Enum8('a' = 1, 'b' = 2)", tt: &anyEnum},
+		{name: "enumB", t: tp("Enum8", "'x' = 1", "'y' = 2", "'z' = 3"), kind: b.E8, target: enumT, wire: "Enum8('x' = 1, 'y' = 2, 'z' = 3)", tt: &anyEnum},
+		// the raw enum columns of both widths, with and without a definition in the server's type name
+		{name: "e8raw", t: t0("Enum8"), kind: b.E8}, {name: "e16raw", t: t0("Enum16"), kind: b.E16},
+		{name: "e8rawDef", t: tp("Enum8", "'a' = 1", "'b' = 2"), kind: b.E8, wire: "Enum8('a' = 1, 'b' = 2)"},
+		{name: "e16rawDef", t: tp("Enum16", "'a' = 1", "'b' = 300"), kind: b.E16, wire: "Enum16('a' = 1, 'b' = 300)"},
 		{name: "dt64_3", t: tp("DateTime64", "3"), kind: dt64raw(3), target: dt64T, wire: "DateTime64(3)"},
 		{name: "dt64_6", t: tp("DateTime64", "6"), kind: dt64raw(6), target: dt64T, wire: "DateTime64(6)"},
 	}
 }
+
+var anyEnum = t0("Enum")
 
 func dt64raw(p int) colgen.Kind {
 	for _, k := range colgen.Universe(1) {
@@ -74,8 +82,11 @@ type bcolumn struct {
 
 func enumVals(k bkind, r *rand.Rand) any {
 	n := 2
-	if k.name == "enumB" {
+	switch k.name {
+	case "enumB":
 		n = 3
+	case "e16rawDef":
+		return [][]int{{1, 0}, {44, 1}}[r.Intn(2)]
 	}
 	return []int{1 + r.Intn(n)}
 }
@@ -213,7 +224,7 @@ func bindMain(args []string) error {
 			for i, k := range sch {
 				c := bcolumn{k: k, name: sn[i], id: fmt.Sprintf("d%d.%d.%d", ci, bi, i)}
 				for r := 0; r < rows; r++ {
-					if k.target != nil && strings.HasPrefix(k.name, "enum") {
+					if strings.HasPrefix(k.wire, "Enum") {
 						c.vals = append(c.vals, enumVals(k, rng))
 					} else {
 						c.vals = append(c.vals, k.kind.Gen(rng, 6))
@@ -228,7 +239,11 @@ func bindMain(args []string) error {
 			// what the specification needs: targets (names as they are now), the block, the outcome
 			var tj, bj []map[string]any
 			for i, t := range targets {
-				tj = append(tj, map[string]any{"name": res[i].Name, "type": t.k.t, "data": held[i]})
+				tt := t.k.t
+				if t.k.tt != nil {
+					tt = *t.k.tt
+				}
+				tj = append(tj, map[string]any{"name": res[i].Name, "type": tt, "data": held[i]})
 			}
 			for _, c := range cols {
 				bj = append(bj, map[string]any{"name": c.name, "type": c.k.t, "data": c.id})
@@ -305,7 +320,9 @@ func bindMain(args []string) error {
 				bj = []map[string]any{}
 			}
 			ev := map[string]any{"ev": "Bind", "single": single, "targets": tj, "block": bj, "rows": rows, "err": errStr(derr), "errMentions": mentions, "after": after, "panic": pan,
-				"inferRefused": derr != nil && strings.Contains(derr.Error(), "infer")}
+				// an inferring target may refuse what the server offers: a type it cannot adopt, or (the enum target, which holds
+				// names) a value the server's definition has no name for
+				"inferRefused": derr != nil && (strings.Contains(derr.Error(), "infer") || strings.Contains(derr.Error(), "unknown enum value"))}
 			tw.Emit(ev)
 			n++
 			_ = json.Marshal
